@@ -8,7 +8,8 @@ PROP = dict(
     theorems=["schedule_independence", "conflict_order_determines_store", "timestamp_is_a_function_of_the_epoch",
               "variation_model_ignores_hash_order", "preliminary_glyph_order_ignores_hash_order",
               "name_record_order_ignores_hash_order", "checked_name_records_are_canonical",
-              "sorting_by_a_total_order_erases_arrival_order"],
+              "sorting_by_a_total_order_erases_arrival_order", "name_record_sort_is_an_ordered_permutation",
+              "name_record_sort_idempotent"],
     prelude="From Coq Require Import List ZArith NArith Bool.\nFrom FV.C01 Require Import Model.\nImport ListNotations.",
     harness_args=lambda tier, seed: ["--seed", str(seed), "--n", str(N[tier]), "--corpus", str(CORPUS[tier]),
                                      "--builds", str(BUILDS[tier])],
@@ -21,7 +22,8 @@ PROP = dict(
     trusted_base=["Coq 8.16.1 kernel (coqc; vm_compute for the timestamp cases)",
                   "scheduler model FV.C02.Model (tied to the code by the C02 check) and the conflict-serialisability "
                   "development FV.C01.Det / SchedDet; hand-written timestamp model tied to head.created/modified",
-                  "Rust harness /verif/harness (c01): child processes of the harness binary compile through fontc::generate_font"],
+                  "Rust harness /verif/harness (c01): child processes of the harness binary compile through fontc::generate_font; "
+                  "its reader of the name table's record keys (sfnt.rs + 12-byte records) feeding name_order_ok"],
     assumptions=["schedule_independence treats a job as atomic and as a function of the items it reads; that no conflicting "
                  "job overlaps its execution is what C02's sched_safe establishes",
                  "hash seeds and thread timing are runtime behaviour the model cannot exhibit: they are exercised by the "
